@@ -322,6 +322,7 @@ static void t_exec(const plan_t *p)
     maxn = (int)p->cfg[CF_MAXN]; if (maxn < 1) maxn = 8; if (maxn > MAXN - 8) maxn = MAXN - 8;
     clear_frees = (int)p->cfg[CF_CLEARFREES];
     next_id = 0; maxreach = 0;
+    memset(bt, (int)(unsigned char)p->cfg[CF_JUNK], sizeof bt); memset(rb, (int)(unsigned char)p->cfg[CF_JUNK], sizeof rb);
     cstl_bintree_init(&bt[0], cmp_key, NULL, offsetof(struct telem, bn));
     cstl_bintree_init(&bt[1], cmp_key, NULL, offsetof(struct telem, bn));
     cstl_rbtree_init(&rb[0], cmp_key, NULL, offsetof(struct telem, rn));
